@@ -15,6 +15,11 @@ Cands == {k * inc : k \in ((x \div inc) - 2)..((x \div inc) + 2)}
 UniqueAndAlg ==
   LET S == {R \in Cands : RoundOkInt(mode, x, inc, R)} IN
   /\ S = {RoundAlg(mode, x, inc)}
+\* the typed copy that Apalache checks for ALL integers (AP_Round.tla) is the same pair of definitions
+AP == INSTANCE AP_Round
+SameAsTyped ==
+  /\ AP!RoundAlg(mode, x, inc) = RoundAlg(mode, x, inc)
+  /\ \A R \in Cands : AP!RoundOkInt(mode, x, inc, R) = RoundOkInt(mode, x, inc, R)
 BigAgrees ==
   \A R \in Cands :
      RoundOk(mode, BOf(x), BOf(inc), BOf(R), BOf(R \div inc)) = RoundOkInt(mode, x, inc, R)
